@@ -23,6 +23,8 @@ CLAIMS = {
  "C14": ("model_checking", "(a) the no-write premise of C13 extended to the instance; (b) Validate explored under every map iteration order (up to 4 keys per range) and with a symbolic hash seed/function: every path agrees with the order-independent reference verdict, hence the verdict is a function of schema and instance; native scaffold observations for Resolve purity and repeated Marshal.", "§6 C14"),
  "C18": ("model_checking", "Non-interference by havoc: in every Schema node all documented non-asserting fields and Extra are unconstrained symbolic values while Validate runs on a symbolic instance; the reference semantics ignores them, so any influence is a satisfiable verdict query. The unknown-keyword / letter-case clause lives inside encoding/json and is covered only by a native enumeration of case variants (scaffold).", "§6 C18"),
  "C17": ("model_checking", "Kernels executed from the real SSA with symbolic byte strings: K1 escape/unescape/parse agree with RFC 6901 for all keys and pointers within the length bounds; K2 dereferenceJSONPointer on a maximal schema (first segment every field name, second segment symbolic) returns exactly the subschema RFC 6901 designates, else an error; K3 percent-encoded pointers to every location of a maximal document resolve end to end and validate against the designated subschema for every instance.", "§6 C17"),
+ "C16": ("model_checking", "Tag-parsing clause only: fieldJSONInfo (real SSA) vs encoding/json's own parseTag/isValidTag/tagOptions.Contains (real SSA of the standard library) on symbolic tag values: same omit decision, same name, same optionality on every path, each path class replayed against the real encoding/json. The clauses that quantify over Go types alone (fresh tree, determinism, cycles, pruning) run as a concrete scaffold over a declared type family and are reported, not solver-decided.", "§6 C16"),
+ "C19": ("model_checking", "Real SSA of orderedProperties.MarshalJSON and basicChecks with symbolic property presence, symbolic PropertyOrder sequences (duplicates, absent names) and every map iteration order: emitted key sequence = listed-and-present names in list order then the rest ascending; duplicates rejected.", "§6 C19"),
 }
 
 ALL = [f"C{i:02d}" for i in range(1, 21)]
